@@ -82,19 +82,15 @@ def run(ctx):
     # (shared with C04)
     from . import c04
     c04.widen(ctx.rule("R-WIDEN", "numeric serializer methods keep the value: only value-preserving widening on the way"), serde)
-    inv = serde.fn("value::de::invalid_value")
-    if inv is None:
-        r4.anchor_missing("value::de::invalid_value")
-    else:
-        names = set()
-        for bi, t in inv.calls():
-            names |= F.callee_names(t)
-        if any(n.endswith("de::Error::invalid_type") or n.endswith("de::Error::custom") or n.endswith("Error::invalid_value")
-               for n in names):
-            r4.ok("invalid_value builds its error through serde::de::Error::{invalid_type, custom}", inv)
-        else:
-            r4.violation("serde_lexpr::value::de::invalid_value", "invalid_value-ctor",
-                         "invalid_value no longer builds its error through serde::de::Error", inv.loc())
+    helpers = ss.error_helpers(serde)
+    if not helpers:
+        # the constructor is found by what it does (a free function of value/de.rs whose result is an error built through
+        # serde::de::Error); the historical name is `invalid_value`
+        r4.violation("serde_lexpr::value::de::invalid_value", "invalid_value-ctor",
+                     "the value deserializer has no constructor of data errors that goes through serde::de::Error any more "
+                     "(historically value::de::invalid_value)")
+    for hp in sorted(helpers):
+        r4.ok("%s builds its error through serde::de::Error::{invalid_type, custom, ..}" % hp, serde.fn(hp))
 
 
 def _cell(v):
